@@ -243,6 +243,8 @@ class Ctx:
         chunks = [lines[i::shards] for i in range(shards)]
         procs = []
         e = dict(os.environ)
+        os.makedirs(os.path.join(BUILD, 'tmp'), exist_ok=True)
+        e['JENCE_VERIF_TMP'] = os.path.join(BUILD, 'tmp')
         if env: e.update(env)
         for c in chunks:
             p = subprocess.Popen(['bash', '-c', 'ulimit -s unlimited 2>/dev/null; exec "$0" "$@"', exe] + args, stdin=subprocess.PIPE, stdout=subprocess.PIPE, stderr=subprocess.PIPE, text=True, env=e)
